@@ -420,7 +420,84 @@ def run_C10(ctx):
     ctx.nontrivial = ctx.evaluations
 
 
+def run_C12(ctx):
+    import re
+    # 1. the MC_Safety universe: every accepted program, every engine / helper set / VM kind
+    maxlen = 3 if ctx.quick else 4
+    r = run_tlc(f"{ctx.prop}-safety", "MC_Safety", {"MaxLen": maxlen, "Dev": set(), "Alphabet": "full", "EmitAll": True},
+                invariants=["Inv"], workers=10, timeout=1500)
+    ctx.add_tlc(f"MC_Safety MaxLen={maxlen} (programs + specified compile outcomes)", r)
+    recs = [x for x in r.replay if x["accept"]]
+    path = os.path.join(ctx.workdir, "universe.ndjson")
+    open(path, "w").write("\n".join(json.dumps(x) for x in recs) + "\n")
+    rep_path = os.path.join(ctx.workdir, "universe.report.json")
+    rv(["compiles", "--cases", path, "--report", rep_path], timeout=3000)
+    rep = json.load(open(rep_path))
+    ctx.evaluations += rep["compilations"]
+    ctx.traces += rep["programs"] - rep["fail"]
+    ctx.nontrivial = rep["programs"]
+    for s_ in rep["samples"]:
+        ctx.sample(s_)
+    for f in rep["failures"]:
+        ctx.violation(f["reason"], {"kind": "compile", "record": f["record"], "observed": f["observed"]})
+    # 2. random accepted programs, validated by TLC against Verifier!CompileOk (TraceCompile)
+    n = 300 if ctx.quick else 8000
+    out = os.path.join(ctx.workdir, "random.compile.ndjson")
+    rv(["compiles", "--random", str(n), "--seed", str(ctx.seed), "--out", out], timeout=3000)
+    summ = json.load(open(out + ".summary.json"))
+    for c in summ["crashed"]:
+        ctx.violation(f"compilation crashed the process ({c['how']})", {"kind": "compile-crash", "case": c["case"]})
+    lines = open(out).read().splitlines()
+    attempt = 0
+    validated = 0
+    while lines and attempt < 6:
+        attempt += 1
+        cur = os.path.join(ctx.workdir, f"random.compile.try{attempt}.ndjson")
+        open(cur, "w").write("\n".join(lines) + "\n")
+        rr = run_tlc(f"{ctx.prop}-tracecompile-{attempt}", "TraceCompile", {}, spec="TraceSpec", invariants=["Mark"],
+                     postcondition="TraceAccepted", workers=1, timeout=1500, env={"TRACE": cur}, expect_violation=True)
+        ctx.states += rr.distinct
+        ctx.transitions += rr.generated
+        m = re.search(r'<<"TRACE-ACCEPTED", (\d+)>>', rr.out)
+        if m:
+            validated += int(m.group(1))
+            break
+        m = re.search(r'<<"TRACE-REJECTED", (\d+), (\d+)>>', rr.out)
+        if not m:
+            raise ToolError("TraceCompile failed:\n" + rr.out[-2000:])
+        pos = int(m.group(1))
+        ev = json.loads(lines[pos - 1])
+        ctx.violation(f"compile event is not allowed by the contract: {ev['engine']} on {ev['vm']} with helpers {ev['helpers']} -> {ev['res']}/{ev['res2']} sizes {ev['sizes']}",
+                      {"kind": "compile-event", "event": ev})
+        validated += pos - 1
+        lines = lines[:pos - 1] + lines[pos:]
+    ctx.traces += validated
+    ctx.evaluations += summ["events"]
+    ctx.extra["random_programs"] = summ["programs"]
+    ctx.extra["compile_events_validated"] = validated
+    # 3. size ladder, incl. every size around the first page boundary of the code buffer
+    sizes = [1, 2, 1000, 65535, 65536, 999999] + (list(range(1338, 1372)) if not ctx.quick else list(range(1342, 1352)))
+    lad = os.path.join(ctx.workdir, "ladder.json")
+    rv(["compiles", "--ladder", ",".join(map(str, sizes)), "--engines", "jit,cl", "--report", lad, "--timeout-ms", "300000"], timeout=3000)
+    rows = json.load(open(lad))["rows"]
+    ctx.evaluations += 2 * len(rows)
+    ctx.extra["ladder_sizes"] = sizes
+    ctx.extra["ladder_max_ms"] = max([x.get("ms", 0) for x in rows] or [0])
+    for x in rows:
+        ok = x.get("res") == "ok" and x.get("res2") == "ok"
+        if ok and x["engine"] == "jit":
+            c, e, b = x["sizes"]
+            ok = c == e and e <= b
+        if ok:
+            ctx.traces += 1
+        else:
+            ctx.violation(f"size ladder: {x['engine']} on {x['vm']} with {x['n']} instructions: {x.get('res')} sizes {x.get('sizes')}",
+                          {"kind": "compile-ladder", "row": x})
+
+
 CHECKS = {
+    "C12": {"level": "model_checking", "run": run_C12, "assumptions": ASSUME_COMMON + ["hook H2 reports the JIT's counted / emitted / buffer sizes"],
+            "rule": "every accepted program of the MC_Safety universe (all programs up to MaxLen slots over 27 templates: dead code, back edges, last-instruction kinds, wide loads, helper and local calls) compiled twice with the x86-64 JIT on the 4 VM kinds and with Cranelift, with helper sets {} and {1}; expected Ok/Err from Verifier!CompileOk; seeded random accepted programs (arbitrary opcodes / registers / displacements) validated by TLC (TraceCompile); size ladder 1..999,999 instructions incl. every size around the code buffer's first page boundary; non-trivial = accepted programs"},
     "C10": {"level": "model_checking", "run": run_C10, "assumptions": ASSUME_COMMON,
             "rule": "VmApi.tla explored completely (all histories over the finite abstract state: 8 programs x 4 verifiers x compiled artefacts x helper x calculator x layout) for each VM kind with invariants RunsLatestLoaded, LoadedWasVerified, NoProgIsError, NotCompiledIsError and the action property FailedCallIsNoOp; binding: seeded random histories of 30 calls over {new, set_program(valid|invalid|valid-for-other-verifier, layout), set_verifier, register_helper, set_stack_usage_calculator, jit_compile, cranelift_compile, execute x3 engines x2 packets} on real VM objects of each kind, every call and result validated by TraceApi.tla; non-trivial = histories"},
     "C05": {"level": "model_checking", "run": run_C05, "assumptions": ASSUME_COMMON,
@@ -531,5 +608,10 @@ MANIFEST_TEXT.update({
     "C10": {"technique": "finite-state TLA+ life-cycle model explored completely by TLC; recorded API histories validated against it by TLC (trace validation)",
             "text": "The abstract VM state is finite, so TLC covers every history of the design, not a bounded sample; the real VM objects are bound to it by validating thousands of random call histories (arguments and results) of each VM kind against the specification, which tracks every state consistent with the observations where the statement leaves the mechanism open.",
             "note": NOTE_COMMON + " The default verifier cannot be re-installed through the public API, so set_verifier(default) is not exercised."},
+})
+MANIFEST_TEXT.update({
+    "C12": {"technique": "TLA+ compile contract (Verifier!CompileOk) evaluated by TLC on all small programs and on recorded compilations (trace validation); JIT size hook",
+            "text": "TLC enumerates every program up to the bound over the template alphabet and states for each accepted one whether compilation must succeed; the harness compiles each with both compilers, all VM kinds and two helper sets, twice, under catch_unwind in a child, and compares; random accepted programs and a size ladder extend the reach; the JIT's sizing pass must count exactly what the emission pass writes.",
+            "note": NOTE_COMMON + " Out-of-bounds writes by the code generators are observed only through the size hook, the emit assertions and process crashes."},
 })
 NOT_APPLICABLE = {}
